@@ -16,8 +16,54 @@ pub struct ExAttribute(Attribute);
 pub struct ExNexthop(bgp::Nexthop);
 
 #[verifier::external_type_specification]
-#[verifier::external_body]
 pub struct ExNlri(packet::Nlri);
+#[verifier::external_type_specification]
+pub struct ExIpv4Net(bgp::Ipv4Net);
+#[verifier::external_type_specification]
+pub struct ExIpv6Net(bgp::Ipv6Net);
+#[verifier::external_type_specification]
+#[verifier::external_body]
+pub struct ExIpv4Addr(std::net::Ipv4Addr);
+#[verifier::external_type_specification]
+#[verifier::external_body]
+pub struct ExIpv6Addr(std::net::Ipv6Addr);
+#[verifier::external_type_specification] #[verifier::external_body] pub struct ExMupNlri(packet::mup::MupNlri);
+#[verifier::external_type_specification] #[verifier::external_body] pub struct ExVpnV4Nlri(packet::vpn::VpnV4Nlri);
+#[verifier::external_type_specification] #[verifier::external_body] pub struct ExVpnV6Nlri(packet::vpn::VpnV6Nlri);
+#[verifier::external_type_specification] #[verifier::external_body] pub struct ExLabeledV4Nlri(packet::labeled::LabeledV4Nlri);
+#[verifier::external_type_specification] #[verifier::external_body] pub struct ExLabeledV6Nlri(packet::labeled::LabeledV6Nlri);
+#[verifier::external_type_specification] #[verifier::external_body] pub struct ExFlowspecV4Nlri(packet::flowspec::FlowspecV4Nlri);
+#[verifier::external_type_specification] #[verifier::external_body] pub struct ExFlowspecV6Nlri(packet::flowspec::FlowspecV6Nlri);
+#[verifier::external_type_specification] #[verifier::external_body] pub struct ExFlowspecVpnV4Nlri(packet::flowspec::FlowspecVpnV4Nlri);
+#[verifier::external_type_specification] #[verifier::external_body] pub struct ExFlowspecVpnV6Nlri(packet::flowspec::FlowspecVpnV6Nlri);
+#[verifier::external_type_specification] #[verifier::external_body] pub struct ExBgpLsNlri(packet::ls::BgpLsNlri);
+#[verifier::external_type_specification] #[verifier::external_body] pub struct ExSrPolicyNlri(packet::sr_policy::SrPolicyNlri);
+#[verifier::external_type_specification] #[verifier::external_body] pub struct ExEvpnNlri(packet::evpn::EvpnNlri);
+#[verifier::external_type_specification] #[verifier::external_body] pub struct ExRtcNlri(packet::rtc::RtcNlri);
+
+/// the octets of an address (network order)
+pub uninterp spec fn ip4_octets(a: std::net::Ipv4Addr) -> Seq<u8>;
+pub uninterp spec fn ip6_octets(a: std::net::Ipv6Addr) -> Seq<u8>;
+pub broadcast axiom fn axiom_ip4_octets_len(a: std::net::Ipv4Addr)
+    ensures #[trigger] ip4_octets(a).len() == 4,
+;
+pub broadcast axiom fn axiom_ip6_octets_len(a: std::net::Ipv6Addr)
+    ensures #[trigger] ip6_octets(a).len() == 16,
+;
+pub assume_specification[ std::net::Ipv4Addr::octets ](a: &std::net::Ipv4Addr) -> (r: [u8; 4])
+    ensures r@ == ip4_octets(*a),
+;
+pub assume_specification[ std::net::Ipv6Addr::octets ](a: &std::net::Ipv6Addr) -> (r: [u8; 16])
+    ensures r@ == ip6_octets(*a),
+;
+pub assume_specification<T: Clone>[ <[T]>::to_vec ](s: &[T]) -> (r: Vec<T>)
+    ensures r@.len() == s@.len(),
+;
+/// `[u8]::to_vec` copies the bytes (the generic contract above only gives the length)
+#[verifier::external_body]
+pub fn vx_bytes_to_vec(s: &[u8]) -> (r: Vec<u8>)
+    ensures r@ == s@,
+{ s.to_vec() }
 
 #[verifier::external_type_specification]
 #[verifier::external_body]
